@@ -49,11 +49,12 @@ def check_text(text, intended=None, cols=None, deep=False):
     got = [N.from_impl(n) for n in inotes]
     if list(nd) != inotes:
         fail("iterating the same note data a second time yields different notes", "same notes", "different")
-    it = iter(nd)
+    fresh = NoteData(text)
+    it = iter(fresh)
     next(it, None)
     del it
-    if list(nd) != inotes:
-        fail("iterating again after an abandoned iteration yields different notes", "same notes", "different")
+    if list(fresh) != inotes:
+        fail("iterating again after an abandoned first iteration yields different notes", "same notes", "different")
     if got != model_notes:
         fail("decoded notes differ from one-note-per-non-zero-cell reading", model_notes[:12], got[:12])
         return fails
